@@ -195,7 +195,20 @@ func GenFrame(r *sim.Rand, uplink bool, devAddr [4]byte, fcnt uint32, g CmdGen, 
 }
 
 // ToLib builds the library value for the frame (plaintext, MIC unset).
-func (f Frame) ToLib() *lorawan.PHYPayload {
+func (f Frame) ToLib() *lorawan.PHYPayload { return f.toLib(true) }
+
+// ToLibWhole is ToLib with the application bytes in one piece (how the bytes
+// are spread over the items of FRMPayload is the caller's choice; a sender
+// that refuses several items is asked again with one).
+func (f Frame) ToLibWhole() *lorawan.PHYPayload { return f.toLib(false) }
+
+// InPieces reports whether ToLib hands the application bytes over in two items.
+func (f Frame) InPieces() bool {
+	n := len(f.AppBytes)
+	return f.HasPort && f.FPort != 0 && n >= 2 && (int(f.AppBytes[0])+n)%5 == 0
+}
+
+func (f Frame) toLib(pieces bool) *lorawan.PHYPayload {
 	mp := &lorawan.MACPayload{
 		FHDR: lorawan.FHDR{
 			DevAddr: lorawan.DevAddr(f.DevAddr),
@@ -218,7 +231,7 @@ func (f Frame) ToLib() *lorawan.PHYPayload {
 			for _, c := range f.FRMCmds {
 				mp.FRMPayload = append(mp.FRMPayload, ToLibCmd(c))
 			}
-		} else if n := len(f.AppBytes); n >= 2 && (int(f.AppBytes[0])+n)%5 == 0 {
+		} else if n := len(f.AppBytes); pieces && f.InPieces() {
 			// an application may hand its bytes over in pieces (FRMPayload is a
 			// list): header and body, say
 			k := 1 + int(f.AppBytes[1])%(n-1)
